@@ -630,8 +630,44 @@ def draw_binop(draw, info):
                if k2 not in info.coords)
     ops = [o for o in BINOPS if not (ints and o == '**')]
     op = draw(st.sampled_from(ops))
-    other = draw(st.sampled_from(['copy', 'copy', 'mask']))
-    return dict(op=op, other=[other])
+    kinds = ['copy', 'copy', 'mask']
+    data = [k for k in info.vars if k not in info.coords and
+            not k.endswith('TFLAG')]
+    if len(data) >= 2:
+        # the second file lacks some variables of the first (documented:
+        # "not found in ifile2; copied")
+        kinds += ['subset', 'subset']
+    pos = [d for d in info.opdims() if info.dims[d][0] >= 1 and
+           not info.oddcoord(d)]
+    if pos:
+        # same-named variables with different (possibly broadcastable)
+        # dimension tuples: an anomaly from a mean whose singleton was
+        # removed, a renamed dimension, a reordered operand.  Not a
+        # "conforming file": the step is judged as out-of-domain (may raise,
+        # else the result must be well-formed)
+        kinds += ['meanrm', 'meanrm', 'rendim']
+        if len(info.dims) >= 2:
+            kinds.append('reorder')
+    kind = draw(st.sampled_from(kinds))
+    if kind == 'subset':
+        k = draw(st.integers(1, len(data) - 1))
+        keys = list(draw(st.permutations(data))[:k])
+        return dict(op=op, other=['subset', keys])
+    if kind == 'meanrm':
+        # the leading dimension of some variable broadcasts; others may not
+        lead = [vd[0] for vd, _ in info.vars.values() if vd and vd[0] in pos]
+        d = draw(st.sampled_from(lead + lead + pos))
+        return dict(op=op, other=['meanrm', d], _ood='binop-nonconforming')
+    if kind == 'rendim':
+        d = draw(st.sampled_from(pos))
+        return dict(op=op, other=['rendim', d, info.fresh('q')],
+                    _ood='binop-nonconforming')
+    if kind == 'reorder':
+        names = list(info.dims)
+        new = list(draw(st.permutations(names)))
+        return dict(op=op, other=['reorder', names, new],
+                    _ood='binop-nonconforming')
+    return dict(op=op, other=[kind])
 
 
 def _monotonic(vals):
@@ -754,7 +790,8 @@ def draw_step(draw, info, allow=None, weights=None, rot=0):
     k = rot % len(pool)
     pool = pool[k:] + pool[:k]
     op = draw(st.sampled_from(pool))
-    return dict(op=op, args=DRAW[op](draw, info), ood=None)
+    args = DRAW[op](draw, info)
+    return dict(op=op, args=args, ood=args.pop('_ood', None))
 
 
 # ---- out-of-domain family: arguments the docstrings exclude -------------
@@ -865,6 +902,14 @@ def derive_operand(f, op, args):
         return f.sliceDimensions(**{o[1]: slice(o[2], o[3])})
     if o[0] == 'mask':
         return f.mask(greater=0)
+    if o[0] == 'subset':
+        return f.subsetVariables(list(o[1]))
+    if o[0] == 'meanrm':
+        return f.applyAlongDimensions(**{o[1]: 'mean'}).removeSingleton(o[1])
+    if o[0] == 'rendim':
+        return f.renameDimension(o[1], o[2])
+    if o[0] == 'reorder':
+        return f.reorderDimensions(list(o[1]), list(o[2]))
     raise KeyError(o[0])
 
 
